@@ -242,6 +242,15 @@ inductive InfoVal where
   | num (n : Nat)
   | cons (c : List (Rel × List Poly))
 
+/-- the two modules `create_from_info` looks a class up in: `qv` (the package) and `qv.utils` -/
+inductive PyModule where
+  | top
+  | utils
+  deriving DecidableEq, Repr
+
+/-- `getattr(module, t)` for a class name `t`: the class of that name (which module holds it does not change the class) -/
+def pyModuleClass (_m : PyModule) (t : Kind) : Kind := t
+
 /-- `hasattr(model, attr)` for the three optional attributes: the labelled types (`QUBO, QUSO, PUBO, PUSO, PCBO, PCSO`)
 have `mapping`; `PCBO` and `PCSO` have `num_ancillas` and `constraints` (the class hierarchy of qubovert) -/
 def pyHasAttr (m : MObj) (attr : String) : Bool :=
